@@ -550,6 +550,7 @@ func concurrentHistory(r *vk.Run, c *vk.Case, h int, rng *vk.Rand) {
 		}
 	}
 	var clock int64
+	var panicked atomic.Bool
 	ops := make([][]porcupine.Operation, clients)
 	start := make(chan struct{})
 	var wg sync.WaitGroup
@@ -563,7 +564,12 @@ func concurrentHistory(r *vk.Run, c *vk.Case, h int, rng *vk.Rand) {
 					runtime.Gosched()
 				}
 				call := atomic.AddInt64(&clock, 1)
-				out := s.apply(in)
+				var out output
+				if p, v, st := vk.Guard(func() { out = s.apply(in) }); p {
+					panicked.Store(true)
+					r.Violation(c.Idx, "panic:"+vk.TopFrame(st), fmt.Sprintf("%s panicked under %d concurrent clients: %v", in, clients, v), map[string]interface{}{"panic": fmt.Sprint(v), "stack": st})
+					return
+				}
 				ret := atomic.AddInt64(&clock, 1)
 				ops[id] = append(ops[id], porcupine.Operation{ClientId: id, Input: in, Call: call, Output: out, Return: ret})
 			}
@@ -571,6 +577,9 @@ func concurrentHistory(r *vk.Run, c *vk.Case, h int, rng *vk.Rand) {
 	}
 	close(start)
 	wg.Wait()
+	if panicked.Load() {
+		return
+	}
 
 	var hist []porcupine.Operation
 	for _, o := range ops {
